@@ -47,7 +47,7 @@ for r in rows:
     old[re.match(r'\| (C\d+-\d+) \|',r).group(1)]=r
 def key(n):
     a,b=n[1:].split('-'); return (int(a),int(b))
-foot=["","Rows marked *missed*: C12-6 and C20-6 are detected by the checks of the properties they actually break (C05 and C18; C07) rather than","by the one they were written against; C19-3 and C19-8 concern peer addresses without a port or without an IP, which C19 as stated does not","quantify over (see each meta.json and DESIGN.md 5.2-5.6)."]
+foot=["","Rows marked *missed*: C12-6, C20-6, C01-16 and C03-15 are detected by the checks of the properties they actually break (C05/C18, C07, C10, C14)","rather than by the one they were written against (C01-16 needs the rebalancer to re-weight on ratings, C03-15 more distinct sources than the capacity:","both outside what C01 / C03 state); C19-3 and C19-8 concern peer addresses without a port or without an IP, which C19 as stated does not quantify","over (see each meta.json and DESIGN.md 5.2-5.8)."]
 open(path,'w').write('\n'.join(head+[old[k] for k in sorted(old,key=key)]+foot)+'\n')
 PY
 rm -rf $OUT
